@@ -143,6 +143,9 @@ func (d *Decoder) decodeOBUs(pkt *rtp.Packet) ([][]byte, error) {
 		var obu []byte
 		obu, obus = obus[len(obus)-1], obus[:len(obus)-1]
 
+		// discard fragments of a previous OBU that was never completed
+		d.resetFragments()
+
 		d.fragmentsSize = len(obu)
 		d.fragments = append(d.fragments, obu)
 		d.fragmentNextSeqNum = pkt.SequenceNumber + 1
